@@ -201,6 +201,20 @@ CHECKS = {
         note="Trusted: harness ladder algebra, numpy quadrature, CODATA constants in the harness; dense models observed through Mpo.todense (C01).",
         technique="property-based testing (Hypothesis) + enumerated grid against harness-computed defining relations and independent physics assembly",
     ),
+    "C17": dict(
+        category="exploration",
+        text="Generated quantum-chemistry integrals (dense / sparse / block / Hubbard / one- or two-body only, scaled over decades) "
+             "through int_to_h and qc_model against a harness fermion model (signed maps on occupation bit strings; the repository's "
+             "H6 FCIDUMP pins the index convention); generated sequences of adjacent site swaps with and without the Jordan-Wigner "
+             "sign against P H P^T resp. F H F^dagger; ground-state searches and two-site TDVP steps with every on-the-fly-swapping "
+             "criterion (a spy counts the exchanges really performed) against the exact sector ground energy, the exact propagator "
+             "and the same run without swapping: operator and state reordered consistently, sector / labels / norm kept, energies "
+             "variational and monotone for lossless schedules.",
+        design_ref="DESIGN.md §4 C17, §9",
+        note="Trusted: harness fermion algebra on bit strings, numpy eigh/expm. <= 4 spatial orbitals (8 spin sites), <= 3 evolution steps; "
+             "sharp OFS = non-OFS comparison only from verified full-bond states (else dt = 1e-6 with a rigorous bound).",
+        technique="property-based testing (Hypothesis) with occupation-number fermion reference model, permutation/JW metamorphic relation and differential OFS vs non-OFS runs",
+    ),
     "C18": dict(
         category="exploration",
         text="Generated Hermitian matrices with structured spectra x dt phases x start vectors (generic, in/near invariant subspaces, "
